@@ -22,10 +22,18 @@
         are worth >= 1 unit gets a successful WithdrawUnbonded transaction paying exactly that value.
     - [exit_withdraw_reachable] : all three conclusions under the union of the envelopes.
     - non-vacuity: [xh_nonvacuous_world1] (history behind world1 of ExitP.v: every hypothesis of
-        [exit_reachable] holds, alice / bob exit by the theorem), [xh_nonvacuous_cx] (history
+        [exit_reachable] holds, alice / bob exit by the theorem), [xh_ops1_ok_by_theorem] ([ops_ok] from
+        [user_roots] and [insts_fresh]), [xh_holders_world1_by_theorem] (the holder bound of
+        [exit_premises_reachable] for every address), [xh_nonvacuous_cx] (history
         [FW_ex_pre] of FundWorld.v — bonds, a slash, unbonds, batch close, unbonding period over:
         every hypothesis of [exit_withdraw_reachable] holds; alice and bob can unbond again and bob's
-        withdrawal of 14906 succeeds, all by the theorem). *)
+        withdrawal of 14906 succeeds, all by the theorem).
+
+    Engineering note: the concrete worlds of section 7 are exchanged with the histories behind them only
+    by [unfold] in the GOAL or by rewriting with a proved equation ([xh_ops1_world], [xh_w2_eq]); a
+    [fold] / [change] / [unfold .. in H] / [repeat split] on an equation between them makes Coq compare
+    the two sides with the lazy machine, i.e. evaluate the whole history symbolically (does not
+    terminate in reasonable time); all evaluation is done by [vm_compute] on closed terms. *)
 From Krp Require Import Tactics Prelude Fixed FMap Types Env Registry Cw20 Reward Dispatcher Hub Exec
      ExecP Hist Inv HubFrame HubAdmin Params Cw20P TokenWorld ClaimsStep ClaimsP LifeP GroupRelease
      WithdrawP RewardP RewardWorld BooksEnv BooksHub BooksP MirrorWire MirrorP ExitWorld ExitP ExitTx
@@ -359,7 +367,7 @@ Qed.
 Definition xh_ops1 : list op := genesis_ops ++ [OAdvance 31].
 
 Lemma xh_ops1_world : run_ops xh_ops1 (empty_world 100) = world1.
-Proof. unfold xh_ops1. rewrite xt_run_ops_app. reflexivity. Qed.
+Proof. unfold xh_ops1, world1, world0. rewrite xt_run_ops_app. reflexivity. Qed.
 
 Ltac xh_mirror_env :=
   vm_compute;
@@ -397,6 +405,14 @@ Proof. xh_ops_ok. Qed.
 Lemma xh_ops1_roots : user_roots xh_ops1.
 Proof. vm_compute. reflexivity. Qed.
 
+(** the instantiation clause [insts_fresh] of [user_roots_ops_ok] holds along this history, so C16's
+    [ops_ok] is also obtained from the two named predicates by that theorem *)
+Lemma xh_ops1_insts_fresh : insts_fresh xh_ops1 (empty_world 100).
+Proof. xh_ops_ok. Qed.
+
+Example xh_ops1_ok_by_theorem : ops_ok xh_ops1 (empty_world 100).
+Proof. exact (user_roots_ops_ok xh_ops1 (empty_world 100) xh_ops1_roots xh_ops1_insts_fresh). Qed.
+
 Lemma xh_ops1_renv : always (REnv uusd) xh_ops1 (empty_world 100).
 Proof. unfold xh_ops1, genesis_ops. xh_renv. Qed.
 
@@ -433,6 +449,19 @@ Proof.
   - destruct (T bob a Nb (proj1 Ha)) as [T1 _]. apply (T1 ts1 Es). rewrite Bb. lia.
 Qed.
 
+(** [exit_premises_reachable] (hence [E1_holder_from_rcore]) applied to the same history: the accrual
+    bound of EVERY holder record of the reward contract of [world1] *)
+Example xh_holders_world1_by_theorem : forall u, E1_holder (reward_of world1) u.
+Proof.
+  pose proof (exit_premises_reachable uusd 100 xh_ops1 xh_ops1_mirror_env xh_ops1_ok xh_ops1_roots
+                xh_ops1_renv) as T.
+  cbv zeta in T. rewrite xh_ops1_world in T. destruct xh_world1_env as [HE HR].
+  destruct (T HE HR) as (h & tb & ts & r & _ & _ & _ & Er & T').
+  do 11 (destruct T' as [_ T']).
+  destruct xt_premises_world1 as (_ & _ & _ & _ & _ & Er1 & _).
+  rewrite Er1 in Er. apply some_inj in Er. subst r. exact T'.
+Qed.
+
 (** *** 7b. the history [FW_ex_pre] (Proofs/ClaimsP.v, Proofs/FundWorld.v): deploy, wire, alice bonds
     100 000 for bSei, bob 50 000 for stSei, validator 0 is slashed by 1 %, alice and bob unbond (directly
     and by allowance), 31 s later alice's next unbond closes the batch, the unbonding period passes *)
@@ -444,7 +473,7 @@ Definition xh_ts2 : token := tok_of (w_stsei xh_w2).
 Lemma xh_w2_parts :
   w_hub xh_w2 = Some xh_h2 /\ w_bsei xh_w2 = Some xh_tb2 /\ w_stsei xh_w2 = Some xh_ts2 /\
   w_reward xh_w2 = Some (reward_of xh_w2).
-Proof. repeat split; vm_compute; reflexivity. Qed.
+Proof. split; [|split; [|split]]; vm_compute; reflexivity. Qed.
 
 Lemma xh_synced_2 : slashing xh_w2 A_hub xh_h2 = Some (synced_of xh_w2 xh_h2).
 Proof. vm_compute. reflexivity. Qed.
@@ -474,11 +503,32 @@ Proof. vm_compute. reflexivity. Qed.
 Lemma xh_ops2_renv : always (REnv uusd) FW_ex_pre (empty_world 100).
 Proof. unfold FW_ex_pre, cx_setup, cx_acts1, cx_acts2. xh_renv. Qed.
 
+
+(** [xh_w2] and the history behind it are exchanged by REWRITING with this equation only (never by
+    [fold]/[change]/[unfold .. in H]: a conversion check in the wrong direction makes Coq evaluate the
+    whole history with the lazy kernel machine, which does not terminate in reasonable time) *)
+Lemma xh_w2_eq : xh_w2 = run_ops FW_ex_pre (empty_world 100).
+Proof. unfold xh_w2. reflexivity. Qed.
+
 Lemma xh_w2_withdraw_env : WithdrawEnv xh_w2.
 Proof.
-  destruct FW_withdraw_nonvacuous as (_ & _ & _ & _ & T). cbv zeta in T. fold xh_w2 in T.
+  destruct FW_withdraw_nonvacuous as (_ & _ & _ & _ & T). cbv zeta in T. rewrite xh_w2_eq.
   destruct T as (h & h1 & Eh & Hp & Hu & HE & _).
-  intros h' Eh'. assert (h' = h) by congruence. subst h'. tauto.
+  intros h' Eh'. rewrite Eh in Eh'. apply some_inj in Eh'. subst h'.
+  exact (conj Hp (conj Hu HE)).
+Qed.
+
+(** the value of bob's released claims in the reached world, read off [FW_withdraw_nonvacuous] *)
+Lemma xh_w2_bob_val h1 :
+  process_withdraw_rate xh_h2 (e_now (w_env xh_w2) - hp_unbonding (h_params xh_h2))
+    (bal (w_env xh_w2) A_hub usei) = Some h1 ->
+  WD_user_val h1 cx_bob = 14906.
+Proof.
+  destruct FW_withdraw_nonvacuous as (_ & _ & _ & _ & T). cbv zeta in T.
+  destruct T as (h & h1' & Eh & _ & _ & _ & Hp & _ & V & _).
+  destruct xh_w2_parts as (Eh2 & _). rewrite xh_w2_eq in Eh2 |- *.
+  rewrite Eh2 in Eh. apply some_inj in Eh. subst h.
+  intros Hp1. rewrite Hp in Hp1. apply some_inj in Hp1. subst h1'. exact V.
 Qed.
 
 (** every hypothesis of [exit_withdraw_reachable] holds for this history; in the reached world (pools
@@ -504,10 +554,12 @@ Proof.
   split; [exact xh_ops2_renv|]. split; [exact HL|]. split; [exact HU|]. split; [exact HRel|]. cbv zeta.
   pose proof (exit_withdraw_reachable uusd 100 FW_ex_pre xh_ops2_mirror_env xh_ops2_ok xh_ops2_roots
                 xh_ops2_renv HL HU HRel) as T.
-  cbv zeta in T. fold xh_w2 in *. destruct xh_w2_env as [HE HR]. pose proof xh_w2_withdraw_env as HWE.
+  cbv zeta in T. destruct xh_w2_env as [HE HR]. pose proof xh_w2_withdraw_env as HWE.
+  destruct xh_w2_parts as (Eh & Eb & Es & _).
+  pose proof (xh_w2_bob_val) as HV.
+  rewrite xh_w2_eq in HE, HR, HWE, Eh, Eb, Es, HV.
   split; [exact HE|]. split; [exact HR|]. split; [exact HWE|].
   destruct T as [T1 T2]. specialize (T1 HE HR).
-  destruct xh_w2_parts as (Eh & Eb & Es & _).
   split; [|split].
   - intros a Ha. assert (Na : cx_alice <> A_hub) by discriminate.
     destruct (T1 cx_alice a Na (proj1 Ha)) as [_ T1b]. apply (T1b xh_tb2 Eb).
@@ -516,8 +568,7 @@ Proof.
     destruct (T1 cx_bob a Nb (proj1 Ha)) as [T1s _]. apply (T1s xh_ts2 Es).
     assert (B : tbal xh_ts2 cx_bob = 40000) by (vm_compute; reflexivity). rewrite B. lia.
   - destruct (T2 HWE xh_h2 Eh) as (h1 & Hp & Hw).
-    assert (V : WD_user_val h1 cx_bob = 14906).
-    { vm_compute in Hp. apply some_inj in Hp. subst h1. vm_compute. reflexivity. }
+    pose proof (HV h1 Hp) as V.
     assert (V1 : 1 <= WD_user_val h1 cx_bob) by (rewrite V; lia).
     destruct (Hw cx_bob V1) as [W1 W2]. split; [exact W1|]. rewrite <- V. apply W2. discriminate.
 Qed.
